@@ -79,6 +79,24 @@ fn main() {
                 None
             })
         }
+        "replayn" => {
+            // debugging aid: run a replay file's trace several times in one process
+            let path = args.get(2).cloned().unwrap_or_default();
+            let v: serde_json::Value = serde_json::from_str(&std::fs::read_to_string(&path).unwrap_or_default()).unwrap_or_default();
+            let c = checks::check(v["check"].as_str().unwrap_or("")).unwrap();
+            let sc = c.parts.into_iter().find(|p| p.scenario.name() == v["scenario"].as_str().unwrap_or("")).unwrap().scenario;
+            crate::core::panics::install();
+            for i in 0..5 {
+                let mut st = crate::core::Stats::default();
+                let (verdict, _) = sc.run_trace(&v["trace"], &mut st);
+                match verdict {
+                    crate::core::Verdict::Fail(x) => println!("run {i}: FAIL {}", x.oracle),
+                    crate::core::Verdict::Pass { digest, .. } => println!("run {i}: pass {digest:x}"),
+                    crate::core::Verdict::Inconclusive(w) => println!("run {i}: inconclusive {w}"),
+                }
+            }
+            0
+        }
         "hashprobe" => {
             // selftest helper: shows that the hash-seed seam is effective
             for seed in [0u64, 1, 1, 2] {
